@@ -468,6 +468,16 @@ pub fn contents_sweep(tier: &str) -> (Vec<Violation>, u64) {
 }
 
 pub fn replay_input_c06(inp: &Value) -> i32 {
+    if inp["kind"].as_str() == Some("two-volumes") {
+        let (v, _) = two_volume_probe();
+        for x in &v {
+            println!("VIOLATION property=C06 signature={}\n  {}", x.sig, x.detail);
+        }
+        if v.is_empty() {
+            println!("no violation on replay");
+        }
+        return if v.is_empty() { 0 } else { 1 };
+    }
     let ps = placements();
     let Some(p) = ps.iter().find(|p| Some(p.name.as_str()) == inp["placement"].as_str()) else { return 2 };
     let seq: Vec<usize> = inp["seq"].as_array().map(|a| a.iter().map(|x| x.as_u64().unwrap_or(0) as usize).collect()).unwrap_or_default();
@@ -574,6 +584,9 @@ pub fn run_c06(tier: &str) -> i32 {
     let (v, n) = contents_sweep(tier);
     rep.add_violations(v);
     super::common::run_hist(&c06_def(), tier, &mut rep);
+    let (tv, tn) = two_volume_probe();
+    rep.add_violations(tv);
+    rep.cov("two_volume_handle_orders", json!(tn));
     rep.cov("directory_contents_enumerated", json!(n));
     rep.cov("placements", json!(placements().iter().map(|p| p.name.clone()).collect::<Vec<_>>()));
     rep.cov("slot_alphabet", json!(SYMBOLS));
@@ -592,7 +605,7 @@ pub fn run_c06(tier: &str) -> i32 {
 
 pub struct Matrix;
 
-const C07_NAMES: [u8; 12] = [0, 2, 3, 5, 13, 10, 11, 12, 14, 15, 8, 9];
+const C07_NAMES: [u8; 13] = [0, 2, 3, 5, 13, 10, 11, 12, 14, 15, 8, 9, 18];
 
 fn c07_clause(c: &str) -> bool {
     c.starts_with("open_file/") || c.starts_with("write/read-only") || c.starts_with("delete/") || c.starts_with("mkdir/") || c.starts_with("open_dir/") || c == "panic" || c.starts_with("handle/")
@@ -772,4 +785,101 @@ pub fn c07_def() -> HistProp {
 
 pub fn _unused(_: &Geom, _: &[u8]) -> String {
     hex(&[])
+}
+
+// ---- C06: "." and sub-directories with two volumes open at once ----------------------------------
+
+/// Both volumes of a two-partition device are open in one manager, in either order, with their root directories opened
+/// in either order; then, for each open directory in turn, "." / a sub-directory / ".." are opened through it and every
+/// handle obtained must list what the independent reader finds in the directory it designates *on its own volume*.
+pub fn two_volume_probe() -> (Vec<Violation>, u64) {
+    use embedded_sdmmc::VolumeIdx;
+    let base = Arc::new(super::c01::two_volume_device(1, 1));
+    let vols = [refat::locate(&*base, 0).unwrap(), refat::locate(&*base, 1).unwrap()];
+    let img = Image::new(base.clone());
+    let names_of = |vi: usize, loc: DirLoc| -> Vec<[u8; 11]> {
+        let fat = refat::read_fat(&img, &vols[vi], 0);
+        let (slots, _, _) = refat::dir_slots(&img, &vols[vi], &fat, loc);
+        refat::live_entries(&slots, vols[vi].fat32).iter().map(|e| e.name).collect()
+    };
+    let sub_loc = |vi: usize| -> DirLoc {
+        let fat = refat::read_fat(&img, &vols[vi], 0);
+        let t = refat::walk(&img, &vols[vi], &fat);
+        DirLoc::Chain(t.find("/SUB").map(|n| n.ent.cluster).unwrap_or(0))
+    };
+    let mut viols: Vec<Violation> = Vec::new();
+    let mut n = 0u64;
+    for vol_order in [[0usize, 1], [1, 0]] {
+        for root_order in [[0usize, 1], [1, 0]] {
+            for extra_first in [false, true] {
+                n += 1;
+                let inp = json!({"kind":"two-volumes","vol_order":vol_order,"root_order":root_order,"extra_first":extra_first});
+                let img2 = img.clone();
+                let r = catch_quiet(|| -> Result<Vec<(String, String)>, String> {
+                    let mut bad: Vec<(String, String)> = Vec::new();
+                    let disk = SimDisk::new(img2);
+                    disk.set_horizon(1_000_000);
+                    let vm: VolumeManager<SimDisk, Clock, 8, 4, 2> = VolumeManager::new_with_limits(disk, Clock::new(), 10);
+                    let mut vh = [None, None];
+                    for &vi in &vol_order {
+                        vh[vi] = Some(vm.open_raw_volume(VolumeIdx(vi)).map_err(|e| format!("open_volume {}: {:?}", vi, map_err(&e)))?);
+                    }
+                    let mut extra = None;
+                    if extra_first {
+                        // one more directory handle on the first-opened volume shifts the positions in the directory table
+                        extra = Some(vm.open_root_dir(vh[vol_order[0]].unwrap()).map_err(|e| format!("extra root: {:?}", map_err(&e)))?);
+                    }
+                    let mut roots = [None, None];
+                    for &vi in &root_order {
+                        roots[vi] = Some(vm.open_root_dir(vh[vi].unwrap()).map_err(|e| format!("open_root_dir {}: {:?}", vi, map_err(&e)))?);
+                    }
+                    let list = |d: RawDirectory| -> Result<Vec<[u8; 11]>, String> {
+                        let mut out: Vec<[u8; 11]> = Vec::new();
+                        vm.iterate_dir(d, |de| out.push(list_ent(de, None).name)).map_err(|e| format!("iterate_dir: {:?}", map_err(&e)))?;
+                        Ok(out)
+                    };
+                    for vi in 0..2usize {
+                        let root = roots[vi].unwrap();
+                        let want_root = names_of(vi, refat::root_loc(&vols[vi]));
+                        let want_sub = names_of(vi, sub_loc(vi));
+                        if list(root)? != want_root {
+                            bad.push(("two-volumes/root-lists-another-directory".into(), format!("root of volume {}", vi)));
+                        }
+                        let dot = vm.open_dir(root, ".").map_err(|e| format!("open_dir(root{}, \".\"): {:?}", vi, map_err(&e)))?;
+                        if list(dot)? != want_root {
+                            bad.push(("two-volumes/dot-leads-to-another-directory".into(), format!("\".\" opened from the root of volume {} does not list that root", vi)));
+                        }
+                        let sub = vm.open_dir(root, "SUB").map_err(|e| format!("open_dir(root{}, SUB): {:?}", vi, map_err(&e)))?;
+                        if list(sub)? != want_sub {
+                            bad.push(("two-volumes/subdir-leads-to-another-directory".into(), format!("SUB opened from the root of volume {} does not list that directory", vi)));
+                        }
+                        let subdot = vm.open_dir(sub, ".").map_err(|e| format!("open_dir(SUB{}, \".\"): {:?}", vi, map_err(&e)))?;
+                        if list(subdot)? != want_sub {
+                            bad.push(("two-volumes/dot-leads-to-another-directory".into(), format!("\".\" opened from SUB of volume {} does not list SUB", vi)));
+                        }
+                        let up = vm.open_dir(sub, "..").map_err(|e| format!("open_dir(SUB{}, \"..\"): {:?}", vi, map_err(&e)))?;
+                        if list(up)? != want_root {
+                            bad.push(("two-volumes/dotdot-leads-to-another-directory".into(), format!("\"..\" opened from SUB of volume {} does not list the root", vi)));
+                        }
+                        for h in [dot, sub, subdot, up] {
+                            vm.close_dir(h).map_err(|e| format!("close_dir: {:?}", map_err(&e)))?;
+                        }
+                    }
+                    let _ = extra;
+                    Ok(bad)
+                });
+                let found: Vec<(String, String)> = match r {
+                    Caught::Ok(Ok(b)) => b,
+                    Caught::Ok(Err(e)) => vec![("two-volumes/error".into(), e)],
+                    Caught::Panic(m) => vec![("two-volumes/panic".into(), m)],
+                };
+                for (sig, detail) in found {
+                    if !viols.iter().any(|x| x.sig == sig) {
+                        viols.push(v6(&sig, format!("volumes opened in order {:?}, roots in order {:?}{}: {}", vol_order, root_order, if extra_first { ", one more root handle opened first" } else { "" }, detail), inp.clone()));
+                    }
+                }
+            }
+        }
+    }
+    (viols, n)
 }
